@@ -8,7 +8,8 @@ import (
 
 func c01Bounds() (pd, pw, pn, md, mw, bw int) {
 	if verif.Tier() > 0 {
-		return 2, 3, 6, 2, 3, 2
+		// (pattern width 3 / 6 nodes with two given bindings did not finish in 15 minutes)
+		return 2, 2, 4, 2, 3, 1
 	}
 	return 2, 2, 3, 2, 2, 1
 }
